@@ -290,11 +290,14 @@ def strip(spec):
             fs.pop("parser", None)
     for fs in s.get("index") or []:
         fs["coerce"] = False
+    if s.get("index_coerce"):
+        s["index_coerce"] = False
     return s
 
 
 def gen_parse_case(rng, *, neutral=False, allow_drop=True, kind=None, mutate_p=0.35,
-                   neutral_regex=False, labels_p=0.25, index_combo_p=0.0):
+                   neutral_regex=False, labels_p=0.25, index_combo_p=0.0, parser_combo_p=0.0,
+                   same_component_p=0.0, unordered_mi_p=0.0):
     spec = G.gen_spec(rng, neutral=neutral, kind=kind, neutral_regex=neutral_regex)
     spec.pop("checks", None)
     if spec["kind"] == "frame":
@@ -310,6 +313,29 @@ def gen_parse_case(rng, *, neutral=False, allow_drop=True, kind=None, mutate_p=0
             opts.append("drop_invalid_rows")
         opts.append("combo:index_error_below_column_error")
         muts.append(("index_combo",))
+    if parser_combo_p and not neutral and rng.random() < parser_combo_p \
+            and force_parser_combo(rng, spec, table):
+        if "drop_invalid_rows" not in opts:
+            opts.append("drop_invalid_rows")
+        for o in ("column_parser", "inexact:parser_changes_values", "combo:parser_column_fails_lazily"):
+            if o not in opts:
+                opts.append(o)
+        muts.append(("parser_combo",))
+    if same_component_p and rng.random() < same_component_p:
+        how = force_same_component_errors(rng, spec, table)
+        if how:
+            spec["drop_invalid_rows"] = True
+            if "drop_invalid_rows" not in opts:
+                opts.append("drop_invalid_rows")
+            opts.append("combo:same_component_errors")
+            opts.append("combo:same_component_errors:" + how)
+            muts.append(("same_component_errors", how))
+    if unordered_mi_p and not neutral and rng.random() < unordered_mi_p:
+        how = force_unordered_multiindex(rng, spec, table)
+        if how:
+            opts.append("index_coerce")
+            opts.append("combo:unordered_multiindex_coerced")
+            opts.append("combo:unordered_multiindex_coerced:" + how)
     if labels_p and G.relabel(rng, spec, table, p=labels_p, polars=neutral):
         opts.append("falsy_labels")
     return spec, table, opts, muts
@@ -453,3 +479,244 @@ def add_whole_column_check(rng, spec, table, p_fail=0.6):
     chk, tag = mk(sum(1 for v in cols[fs["name"]]["values"] if v is not None))
     fs["checks"].append(chk)
     return "column:" + tag
+
+
+# ------------------------------------------------ forced combinations (round 3)
+PY_PARSERS = {
+    "abs": lambda x: abs(x),
+    "clip0": lambda x: x if x >= 0 else type(x)(0),
+    "lower": lambda x: x.lower(),
+    "strip": lambda x: x.strip(),
+}
+# raw values a parser changes (on top of the dtype pool)
+RAW_FOR_PARSER = {
+    ("abs", "int64"): [-2, -4, -5, -7, -9], ("clip0", "int64"): [-2, -4, -5, -7, -9],
+    ("abs", "float64"): [-2.5, -1.0, -3.0, -4.5, -2.0], ("clip0", "float64"): [-2.5, -1.0, -3.0, -4.5],
+    ("lower", "str"): ["AB", "Ab", "B", "FOO", "Bar", "XB", "BA", "A.B"],
+    ("strip", "str"): [" a", "b ", " ab ", "foo ", " bar", "\tabc", " xb ", " a.b", "  "],
+}
+
+
+def force_parser_combo(rng, spec, table):
+    """drop_invalid_rows + a Column with a custom (idempotent) parser whose
+    column STILL fails a check on one row after parsing (the column takes the
+    lazy error path) while another row of the same column survives with a raw
+    value that differs from its parsed value (the parsed column has to come
+    back, not the raw one).  pandas DataFrameSchema columns and SeriesSchema.  Mutates spec / table; returns
+    True when the combination was produced."""
+    if not table["columns"]:
+        return False
+    n = len(table["columns"][0]["values"])
+    names = [c["name"] for c in table["columns"]]
+    if n < 2 or any(len(c["values"]) != n for c in table["columns"]) or len(set(names)) != len(names):
+        return False
+    cands = []
+    if spec["kind"] == "series":
+        # SeriesSchema(parsers=...) takes the same path
+        fs, c = spec["field"], table["columns"][0]
+        if fs["dtype"] in PARSERS and c["phys"] == G.PHYS_OF[fs["dtype"]]:
+            cands.append((fs, c))
+    else:
+        listed = set(G._flat_unique(spec))
+        for fs in spec["columns"]:
+            if fs["regex"] or fs["dtype"] not in PARSERS or fs["name"] in listed:
+                continue
+            for c in table["columns"]:
+                if c["name"] == fs["name"] and c["phys"] == G.PHYS_OF[fs["dtype"]]:
+                    cands.append((fs, c))
+    if not cands:
+        return False
+    fs, c = rng.choice(cands)
+    for attempt in range(10):
+        pname = fs.get("parser") if attempt == 0 and fs.get("parser") else rng.choice(sorted(PARSERS[fs["dtype"]]))
+        checks = fs["checks"] if attempt < 2 and fs["checks"] else \
+            [G.gen_check(rng, fs["dtype"]) for _ in range(rng.randint(1, 2))]
+        f2 = dict(fs, checks=checks)
+        fn = PY_PARSERS[pname]
+        raws = list(G.POOL[fs["dtype"]]) + RAW_FOR_PARSER[(pname, fs["dtype"])]
+        ok = lambda x: all(model.check_cell(k, x) for k in checks)
+        changed_ok = [r for r in raws if fn(r) != r and ok(fn(r))]
+        bad = [r for r in raws if not ok(fn(r))]
+        fill = [r for r in G.POOL[fs["dtype"]] if ok(fn(r))]
+        if changed_ok and bad and fill:
+            break
+    else:
+        return False
+    fs["checks"] = checks
+    for k in checks:
+        k["ignore_na"] = True
+    fs["parser"] = pname
+    fs["unique"] = False
+    # every non-null cell conforms after parsing, then the two planted rows
+    c["values"] = [v if v is None or ok(fn(v)) else rng.choice(fill) for v in c["values"]]
+    i, j = rng.sample(range(n), 2)
+    c["values"][i] = rng.choice(bad)
+    c["values"][j] = rng.choice(changed_ok)
+    if n >= 3 and rng.random() < 0.4:
+        k = rng.choice([x for x in range(n) if x not in (i, j)])
+        c["values"][k] = rng.choice(changed_ok + bad)
+    spec["drop_invalid_rows"] = True
+    return True
+
+
+def force_same_component_errors(rng, spec, table, how=None):
+    """Two row-level errors collected for the SAME schema component on
+    DIFFERENT rows: (two_checks) two checks of one column, each failing on a row
+    of its own; (null_and_check) a null in a non-nullable column + a value check
+    failing on another row; (regex_nulls) nulls on different rows of two columns
+    matched by one non-nullable regex column.  Backend-neutral (used for polars
+    and pandas).  Mutates spec / table; returns the variant or None."""
+    if spec["kind"] != "frame" or not table["columns"]:
+        return None
+    n = len(table["columns"][0]["values"])
+    names = [c["name"] for c in table["columns"]]
+    if n < 3 or any(len(c["values"]) != n for c in table["columns"]) or len(set(names)) != len(names):
+        return None
+    how = how or rng.choice(["two_checks", "null_and_check", "regex_nulls"])
+    listed = set(G._flat_unique(spec))
+    neutral = spec.get("_neutral", False)
+    if how == "regex_nulls":
+        rx = [fs for fs in spec["columns"] if fs["regex"]]
+        fs = rx[0] if rx else None
+        cols = [c for c in table["columns"] if fs and model.match_regex(fs["name"], c["name"])]
+        if fs is None or len(cols) < 2 or fs["dtype"] not in ("float64", "str", "datetime") \
+                or any(c["phys"] != G.PHYS_OF[fs["dtype"]] for c in cols):
+            # (re)build the regex column: two matched columns of a nullable-capable type
+            spec["columns"] = [f for f in spec["columns"] if not f["regex"]]
+            table["columns"] = [c for c in table["columns"]
+                                if not any(model.match_regex(f["name"], c["name"]) for f in rx)]
+            fs = G.gen_field(rng, "r_.*", rng.choice(["float64", "str", "datetime"]), neutral=neutral,
+                             allow_unique=False)
+            fs["regex"] = True
+            spec["columns"].append(fs)
+            cols = [{"name": l, "phys": G.PHYS_OF[fs["dtype"]], "values": G.gen_values(rng, fs, n)}
+                    for l in ("r_a", "r_bb")]
+            table["columns"].extend(cols)
+        fs["nullable"], fs["unique"], fs["required"] = False, False, True
+        for k in fs["checks"]:
+            k["ignore_na"] = True
+        ok = G.satisfying(fs)
+        if not ok:
+            return None
+        for c in cols:
+            c["values"] = [v if v is not None else rng.choice(ok) for v in c["values"]]
+        i, j = rng.sample(range(n), 2)
+        cols[0]["values"][i] = None
+        cols[1]["values"][j] = None
+        return how
+    cands = []
+    for fs in spec["columns"]:
+        if fs["regex"] or fs["name"] in listed or fs["dtype"] == "bool":
+            continue
+        for c in table["columns"]:
+            if c["name"] == fs["name"] and c["phys"] == G.PHYS_OF[fs["dtype"]]:
+                if how == "two_checks" or c["phys"] in ("float64", "object", "datetime"):
+                    cands.append((fs, c))
+    if not cands:
+        return None
+    fs, c = rng.choice(cands)
+    pool = G.POOL[fs["dtype"]]
+    for _ in range(16):
+        k1 = G.gen_check(rng, fs["dtype"], neutral)
+        k2 = G.gen_check(rng, fs["dtype"], neutral)
+        only1 = [x for x in pool if not model.check_cell(k1, x) and model.check_cell(k2, x)]
+        only2 = [x for x in pool if model.check_cell(k1, x) and not model.check_cell(k2, x)]
+        both_ok = [x for x in pool if model.check_cell(k1, x) and model.check_cell(k2, x)]
+        if how == "two_checks" and only1 and only2 and both_ok:
+            break
+        if how == "null_and_check" and both_ok and (only1 or only2):
+            break
+    else:
+        return None
+    fs["checks"] = [k1, k2] if how == "two_checks" or rng.random() < 0.5 else [k1 if only1 else k2]
+    fs["unique"] = False
+    if how == "null_and_check" and len(fs["checks"]) == 1:
+        only = only1 if only1 else only2
+        both_ok = [x for x in pool if model.check_cell(fs["checks"][0], x)]
+    c["values"] = [rng.choice(both_ok) for _ in range(n)]
+    i, j = rng.sample(range(n), 2)
+    if how == "two_checks":
+        c["values"][i] = rng.choice(only1)
+        c["values"][j] = rng.choice(only2)
+    else:
+        fs["nullable"] = False
+        c["values"][i] = None
+        c["values"][j] = rng.choice(only1 or only2) if len(fs["checks"]) == 2 else rng.choice(only)
+        if rng.random() < 0.5:
+            # the null above the check failure / below it: both orders
+            c["values"][i], c["values"][j] = c["values"][j], c["values"][i]
+    return how
+
+
+def force_unordered_multiindex(rng, spec, table):
+    """MultiIndex(ordered=False) with named, COERCING levels (coerce on every
+    level, on the MultiIndex or on the dataframe schema) validated on data whose
+    level order differs from the order in which the schema lists its levels,
+    the level values stored in a type that needs the (exact) coercion, and
+    levels that accept each other's labels (same dtype, the same check): a
+    coerced level that lands under another level's name raises nothing.
+    pandas DataFrameSchema / SeriesSchema.  Mutates spec / table; returns the
+    way coercion was requested, or None."""
+    cols = table["columns"]
+    n = len(cols[0]["values"]) if cols else 0
+    if n < 2 or any(len(c["values"]) != n for c in cols):
+        return None
+    dtype = rng.choice(["int64", "int64", "float64", "str"])
+    k = rng.choice([2, 2, 3])
+    chk = None
+    pool = list(G.POOL[dtype])
+    if dtype == "int64":
+        pool = [x for x in pool if abs(x) < 2 ** 31]
+    for _ in range(6):
+        c = G.gen_check(rng, dtype)
+        ok = [x for x in pool if model.check_cell(c, x)]
+        if len(ok) >= 2 * k and rng.random() < 0.7:
+            chk, pool = c, ok
+            break
+    if len(pool) < 2 * k:
+        return None
+    rng.shuffle(pool)
+    # disjoint value groups per level: a swap of two levels is visible
+    groups = [pool[i::k] for i in range(k)]
+    levels, fields = [], []
+    for i in range(k):
+        fs = G.gen_field(rng, "i%d" % i, dtype, p_checks=0.0)
+        fs["nullable"], fs["unique"] = False, False
+        fs["checks"] = [copy.deepcopy(chk)] if chk else []
+        vals = [rng.choice(groups[i]) for _ in range(n)]
+        fields.append(fs)
+        levels.append({"name": fs["name"], "phys": G.PHYS_OF[dtype], "values": vals})
+    # unique row labels: the first level enumerates when it can, else give up uniqueness
+    tuples = list(zip(*[l["values"] for l in levels]))
+    if len(set(tuples)) != len(tuples):
+        if len(groups[0]) >= n:
+            levels[0]["values"] = rng.sample(groups[0], n)
+        else:
+            return None
+    how = rng.choice(["level", "level", "multiindex", "schema"] if spec["kind"] == "frame"
+                     else ["level", "level", "multiindex"])
+    for fs, lev in zip(fields, levels):
+        if how == "level":
+            fs["coerce"] = True
+        # store the labels in a type that needs the coercion
+        if dtype == "int64":
+            t = rng.choice(["str", "float"])
+            lev["phys"], lev["values"] = ("object", [str(v) for v in lev["values"]]) if t == "str" \
+                else ("float64", [float(v) for v in lev["values"]])
+        elif dtype == "float64":
+            if all(float(v).is_integer() and abs(v) < 2 ** 50 for v in lev["values"]) and rng.random() < 0.5:
+                lev["phys"], lev["values"] = "int64", [int(v) for v in lev["values"]]
+            else:
+                lev["phys"], lev["values"] = "object", [repr(float(v)) for v in lev["values"]]
+        # str levels: already text (coercion is the identity; the ORDER is the point)
+    if how == "multiindex":
+        spec["index_coerce"] = True
+    elif how == "schema":
+        spec["coerce"] = True
+    spec["index"] = fields
+    spec["index_ordered"] = False
+    perm = list(range(k))
+    while perm == list(range(k)):
+        rng.shuffle(perm)
+    table["index"] = {"levels": [levels[i] for i in perm]}
+    return how
